@@ -25,7 +25,7 @@
 EXTENDS HtmMatch, Json
 
 CONSTANTS Kind,        \* "gc" | "rs"
-          Scope,       \* "q" | "t" | "s" | "m" | "h" : which sub-lattice / radius catalogue (below)
+          Scope,       \* "q" | "t" | "s" | "m" | "h" | "d" : which sub-lattice / radius catalogue (below)
           MaxN2,       \* matcher sets of 1..MaxN2 points (sequences: order and duplicates matter)
           MaxN1,       \* searched sets of 1..MaxN1 points (plus the self-match p1 = p2)
           MaxCalls,    \* calls per matcher life
@@ -34,10 +34,11 @@ CONSTANTS Kind,        \* "gc" | "rs"
           DoExport,    \* TRUE: print every finished life as JSON
           KMode,       \* export runs only - "each": a call carries ONE maxmatch of KSet; "sweep": a call is made
                        \* with EVERY maxmatch of KSet, ascending, one after the other on the same matcher
-          MaxOw        \* how often the caller may overwrite, in place, the arrays the matcher was built from
+          MaxOw,       \* how often the caller may overwrite, in place, the arrays the matcher was built from
+          ScaleN       \* export runs: sizes a finished life's first set may be tiled up to ({}: no scale cases)
 
-VARIABLES phase, p2, ident, buf, calls, cur, mech
-vars == <<phase, p2, ident, buf, calls, cur, mech>>
+VARIABLES phase, p2, ident, buf, calls, cur, mech, scale
+vars == <<phase, p2, ident, buf, calls, cur, mech, scale>>
 
 \* ---- catalogues ---------------------------------------------------------------------
 \* great circle: <<a, b>> = a + b*eps degrees along the circle.  0/360 = the seam (equator) ;
@@ -74,10 +75,18 @@ GcRadH == {<<0, 3>>, <<180, -1>>}
 RsPosH == {<<1, 0, 0, 1>>, <<3, 4, 0, 5>>, <<-1, 0, 0, 1>>}
 RsRadH == {<<1, 2>>, <<-1, 1>>}
 
-Pos   == IF Kind = "gc" THEN (CASE Scope = "q" -> GcPosQ [] Scope = "t" -> GcPosT [] Scope = "s" -> GcPosS
+\* scope "d" (great circle only) - a DENSE matcher set: every integer position of the circle, every third one twice
+\* (eps apart): 480 points in 360 distinct places, so the tree has far more than 256 occupied triangles at depth >= 6;
+\* searched around a few points with radii of 1..10 degrees (covers of hundreds to thousands of leaf triangles, full
+\* and partial ones)
+DenseP2 == [t \in 1..360 |-> <<t - 1, 0>>] \o [t \in 1..120 |-> <<3 * (t - 1), 1>>]
+GcPosD == {<<0, 0>>, <<0, 1>>, <<45, -1>>, <<90, 0>>, <<180, 2>>, <<359, 0>>}
+GcRadD == {<<1, 1>>, <<2, -1>>, <<5, 1>>, <<10, -1>>}
+
+Pos   == IF Kind = "gc" THEN (CASE Scope = "d" -> GcPosD [] Scope = "q" -> GcPosQ [] Scope = "t" -> GcPosT [] Scope = "s" -> GcPosS
                                 [] Scope = "m" -> GcPosM [] Scope = "h" -> GcPosH)
          ELSE (CASE Scope = "q" -> RsPosQ [] Scope = "t" -> RsPosT [] Scope = "s" -> RsPosS [] Scope = "h" -> RsPosH)
-Radii == IF Kind = "gc" THEN (CASE Scope = "q" -> GcRadQ [] Scope = "t" -> GcRadT [] Scope = "s" -> GcRadS
+Radii == IF Kind = "gc" THEN (CASE Scope = "d" -> GcRadD [] Scope = "q" -> GcRadQ [] Scope = "t" -> GcRadT [] Scope = "s" -> GcRadS
                                 [] Scope = "m" -> GcRadM [] Scope = "h" -> GcRadH)
          ELSE (CASE Scope = "q" -> RsRadQ [] Scope = "t" -> RsRadT [] Scope = "s" -> RsRadS [] Scope = "h" -> RsRadH)
 
@@ -90,7 +99,7 @@ ASSUME Kind = "gc" => \A p \in Pos : GcIsPos(p)
 \* calls is the history: events [op |-> "call", ...] and [op |-> "ow", buf |-> new content]
 NoCall  == [p1 |-> <<>>, rad |-> <<>>]
 NoMech  == [on |-> FALSE, i |-> 0, out |-> <<>>, all |-> <<>>]
-Init == phase = "p2" /\ p2 = <<>> /\ ident = TRUE /\ buf = <<>> /\ calls = <<>> /\ cur = NoCall /\ mech = NoMech
+Init == phase = "p2" /\ p2 = (IF Scope = "d" THEN DenseP2 ELSE <<>>) /\ scale = 0 /\ ident = TRUE /\ buf = <<>> /\ calls = <<>> /\ cur = NoCall /\ mech = NoMech
 
 IsCall(e) == e.op = "call"
 NCalls    == Cardinality({n \in DOMAIN calls : IsCall(calls[n])})
@@ -98,28 +107,28 @@ NOw       == Len(calls) - NCalls
 \* a pole may be written with any longitude: then two copies of it are the same point without being bit-identical
 HasPole(sq) == Kind = "gc" /\ \E t \in DOMAIN sq : sq[t][1] \in {90, 270} /\ sq[t][2] = 0
 
-AddP2 == /\ phase = "p2" /\ Len(p2) < MaxN2
+AddP2 == /\ phase = "p2" /\ Len(p2) < MaxN2 /\ Scope # "d"
          /\ \E p \in Pos : p2' = Append(p2, p)
-         /\ UNCHANGED <<phase, ident, buf, calls, cur, mech>>
+         /\ UNCHANGED <<scale, phase, ident, buf, calls, cur, mech>>
 
 New == /\ phase = "p2" /\ Len(p2) >= 1              \* New(depth, arrays): the depth is not part of the abstract state
        /\ \E id \in (IF HasPole(p2) THEN BOOLEAN ELSE {TRUE}) : ident' = id
        /\ buf' = p2                                 \* the matcher is a snapshot of what the arrays hold now
-       /\ phase' = "idle" /\ UNCHANGED <<p2, calls, cur, mech>>
+       /\ phase' = "idle" /\ UNCHANGED <<scale, p2, calls, cur, mech>>
 
 \* the caller re-uses its arrays: every entry set to one catalogue point, or the content reversed
 OwSet == {[t \in DOMAIN buf |-> q] : q \in Pos} \cup {[t \in DOMAIN buf |-> buf[Len(buf) + 1 - t]]}
 Overwrite == /\ phase = "idle" /\ NOw < MaxOw /\ NCalls < MaxCalls
              /\ \E nb \in OwSet \ {buf} : buf' = nb /\ calls' = Append(calls, [op |-> "ow", buf |-> nb])
-             /\ UNCHANGED <<phase, p2, ident, cur, mech>>
+             /\ UNCHANGED <<scale, phase, p2, ident, cur, mech>>
 
 AddP1 == /\ phase \in {"idle", "p1"} /\ NCalls < MaxCalls /\ Len(cur.p1) < MaxN1
          /\ \E p \in Pos : cur' = [cur EXCEPT !.p1 = Append(@, p)]
-         /\ phase' = "p1" /\ UNCHANGED <<p2, ident, buf, calls, mech>>
+         /\ phase' = "p1" /\ UNCHANGED <<scale, p2, ident, buf, calls, mech>>
 
-SelfCall == /\ phase = "idle" /\ NCalls < MaxCalls          \* match the set against itself
+SelfCall == /\ phase = "idle" /\ NCalls < MaxCalls /\ Scope # "d"       \* match the set against itself
             /\ cur' = [cur EXCEPT !.p1 = p2]
-            /\ phase' = "p1" /\ UNCHANGED <<p2, ident, buf, calls, mech>>
+            /\ phase' = "p1" /\ UNCHANGED <<scale, p2, ident, buf, calls, mech>>
 
 RadVectors(n) ==                      \* one radius, or (n >= 2) a few per-point vectors built from the catalogue
     {<<r>> : r \in Radii} \cup
@@ -129,17 +138,17 @@ RadVectors(n) ==                      \* one radius, or (n >= 2) a few per-point
 
 ChooseRad == /\ phase = "p1" /\ Len(cur.p1) >= 1
              /\ \E rv \in RadVectors(Len(cur.p1)) : cur' = [cur EXCEPT !.rad = rv]
-             /\ phase' = "k" /\ UNCHANGED <<p2, ident, buf, calls, mech>>
+             /\ phase' = "k" /\ UNCHANGED <<scale, p2, ident, buf, calls, mech>>
 
 CallWith(k) == [kind |-> Kind, p2 |-> p2, p1 |-> cur.p1, rad |-> cur.rad, k |-> k, ident |-> ident]
-KSet == IF Scope = "h" THEN {0, 1} ELSE {-1, 0, 1, 2, 3, MaxGroup(CallWith(0)) + 1}
+KSet == IF Scope = "h" THEN {0, 1} ELSE IF Scope = "d" THEN {0, 1, 3} ELSE {-1, 0, 1, 2, 3, MaxGroup(CallWith(0)) + 1}
 
 ChooseK ==                                \* model-checking flavour: one maxmatch, then the mechanism runs
     /\ phase = "k"
     /\ \E k \in KSet : calls' = Append(calls, [op |-> "call", p1 |-> cur.p1, rad |-> cur.rad, k |-> k])
     /\ cur' = NoCall
     /\ phase' = "mech" /\ mech' = [on |-> TRUE, i |-> 1, out |-> <<>>, all |-> <<>>]
-    /\ UNCHANGED <<p2, ident, buf>>
+    /\ UNCHANGED <<scale, p2, ident, buf>>
 
 \* export flavour: the exported call record carries the list ks of maxmatch values it is to be made with
 ChooseKs ==
@@ -147,7 +156,7 @@ ChooseKs ==
     /\ \E ks \in (IF KMode = "sweep" THEN {VSortSet(KSet)} ELSE {<<k>> : k \in KSet}) :
           calls' = Append(calls, [op |-> "call", p1 |-> cur.p1, rad |-> cur.rad, ks |-> ks])
     /\ cur' = NoCall /\ phase' = "idle" /\ mech' = NoMech
-    /\ UNCHANGED <<p2, ident, buf>>
+    /\ UNCHANGED <<scale, p2, ident, buf>>
 
 \* the call is judged against the point set the matcher was BUILT from - never against buf
 LastCall == LET e == calls[Len(calls)] IN [kind |-> Kind, p2 |-> p2, p1 |-> e.p1, rad |-> e.rad, k |-> e.k, ident |-> ident]
@@ -186,13 +195,16 @@ MechStep ==
           mech' = [mech EXCEPT !.i = @ + 1,
                                !.out = @ \o [t \in DOMAIN g |-> <<mech.i - 1, g[t] - 1>>],
                                !.all = @ \o [t \in DOMAIN sq |-> <<mech.i - 1, sq[t] - 1>>]]
-    /\ UNCHANGED <<phase, p2, ident, buf, calls, cur>>
+    /\ UNCHANGED <<scale, phase, p2, ident, buf, calls, cur>>
 
 MechDone ==
     /\ phase = "mech" /\ mech.i > N1(LastCall)
-    /\ phase' = "idle" /\ UNCHANGED <<p2, ident, buf, calls, cur, mech>>
+    /\ phase' = "idle" /\ UNCHANGED <<scale, p2, ident, buf, calls, cur, mech>>
 
+\* a finished life may be marked as a SCALE case: its (single) call is to be made with the first set tiled up to
+\* `scale` points and judged through ConcatLaw from the small call
 Finish == /\ phase = "idle" /\ NCalls >= 1 /\ IsCall(calls[Len(calls)])
+          /\ \E n \in (IF ScaleN = {} THEN {0} ELSE ScaleN) : scale' = n
           /\ phase' = "done" /\ UNCHANGED <<p2, ident, buf, calls, cur, mech>>
 
 Next       == AddP2 \/ New \/ Overwrite \/ AddP1 \/ SelfCall \/ ChooseRad \/ ChooseK \/ MechStep \/ MechDone
@@ -216,8 +228,12 @@ RefAccepted == (phase = "mech" /\ mech.i = 1) =>            \* once per call: th
     /\ Accept(c, o)
     /\ \A i \in 1..N1(c) : Must(c, i) \subseteq May(c, i)
     /\ ~Limited(c) => Len(o.m1) = VSumF(LAMBDA i : Cardinality(May(c, i)), 1..N1(c))
+    /\ ConcatLaw(c)                                          \* the scale law, on every call of the small scope
+
+\* acceptance is group-wise: every accepted output of the mechanism stays accepted when restricted to a part
+AcceptLawHolds == (phase = "mech" /\ mech.i > N1(LastCall)) => AcceptLaw(LastCall, MechObs(LastCall))
 
 \* ---- export ---------------------------------------------------------------------------------
 Export == (DoExport /\ phase = "done") =>
-              PrintT(<<"CASE", ToJson([kind |-> Kind, p2 |-> p2, ident |-> ident, calls |-> calls])>>)
+              PrintT(<<"CASE", ToJson([kind |-> Kind, p2 |-> p2, ident |-> ident, calls |-> calls, scale |-> scale])>>)
 =============================================================================
